@@ -37,16 +37,16 @@ Print Assumptions C07_queued_fds_pop.
 
 (* ---- accept: conservation of descriptors, for servers and ipc pipes alike ---- *)
 Theorem C07_accept_conservation :
-  forall kind ipc ao al oo os beh, Forall acc_ok ao -> Forall op_ok os ->
-  let '(x, tr) := run kind (init ipc ao al oo) os beh in
+  forall rx kind ipc ao al oo os beh, Forall acc_ok ao -> Forall op_ok os ->
+  let '(x, tr) := run kind (init_v rx ipc ao al oo) os beh in
   Permutation (handed tr) (claimed tr ++ held (sv x) ++ closed tr) /\
   (NoDup (handed tr) -> NoDup (claimed tr ++ held (sv x) ++ closed tr)).
 Proof. exact conservation. Qed.
 Print Assumptions C07_accept_conservation.
 
 Theorem C07_accept_eagain_iff_none :
-  forall kind ipc ao al oo os beh c, Forall acc_ok ao -> Forall op_ok os ->
-  let s := sv (fst (run kind (init ipc ao al oo) os beh)) in
+  forall rx kind ipc ao al oo os beh c, Forall acc_ok ao -> Forall op_ok os ->
+  let s := sv (fst (run kind (init_v rx ipc ao al oo) os beh)) in
   In (ERet UV_EAGAIN) (snd (uv_accept s c)) <-> held s = [].
 Proof. exact eagain_iff_none. Qed.
 Print Assumptions C07_accept_eagain_iff_none.
@@ -54,20 +54,34 @@ Print Assumptions C07_accept_eagain_iff_none.
 (* every connection libuv keeps is announced by exactly one connection_cb, made right
    after accept4 returned it, and there is no other connection_cb *)
 Theorem C07_connection_cb_per_connection :
-  forall kind ao al oo os beh, Forall acc_ok ao -> Forall op_ok os ->
-  let tr := snd (run kind (init false ao al oo) os beh) in
+  forall rx kind ao al oo os beh, Forall acc_ok ao -> Forall op_ok os ->
+  let tr := snd (run kind (init_v rx false ao al oo) os beh) in
   cb_ok tr = true /\ n_cb tr = length (arrivals tr).
 Proof.
-  intros kind ao al oo os beh Fa Fo. pose proof (cb_per_connection kind ao al oo os beh Fa Fo) as H.
+  intros rx kind ao al oo os beh Fa Fo. pose proof (cb_per_connection rx kind ao al oo os beh Fa Fo) as H.
   split; [exact H|exact (cb_ok_count _ H)].
 Qed.
 Print Assumptions C07_connection_cb_per_connection.
 
-(* POLLIN paused exactly while a connection is held (A4) - as long as no uv_accept fails *)
+(* [init_v rx ...]: rx = false is the current uv_accept (= [init]); rx = true the code with
+   notes/C07_fix_accept_rearm.diff (POLLIN re-armed whenever accepted_fd becomes -1, also
+   when uv_accept failed).  All theorems above and below hold for both. *)
+
+(* A4 for the repaired variant, in full: in every reachable state of a listening stream
+   that is not closing, POLLIN is paused exactly while a connection is held - whatever
+   client handles uv_accept is given *)
+Theorem C07_server_rearm :
+  forall kind ao al oo os beh, Forall acc_ok ao -> Forall op_ok os ->
+  let s := sv (fst (run kind (init_v true false ao al oo) os beh)) in
+  s_closing s = false -> (s_pollin s = true <-> s_acc s = -1).
+Proof. exact rearm_fixed. Qed.
+Print Assumptions C07_server_rearm.
+
+(* current code: the same as long as no uv_accept fails *)
 Theorem C07_server_rearm_partial :
   forall kind ao al oo os beh, Forall acc_ok ao -> Forall op_ok os ->
   no_busy os = true -> (forall k, no_busy (beh k) = true) ->
-  let s := sv (fst (run kind (init false ao al oo) os beh)) in
+  let s := sv (fst (run kind (init_v false false ao al oo) os beh)) in
   s_closing s = false -> (s_pollin s = true <-> s_acc s = -1).
 Proof. exact rearm_partial. Qed.
 Print Assumptions C07_server_rearm_partial.
@@ -76,15 +90,15 @@ Print Assumptions C07_server_rearm_partial.
    holds a connection nor polls for one *)
 Theorem C07_server_rearm_refuted :
   exists ao os beh,
-    let s := sv (fst (run (fun _ => 0) (init false ao [] []) os beh)) in
+    let s := sv (fst (run (fun _ => 0) (init_v false false ao [] []) os beh)) in
     s_closing s = false /\ s_acc s = -1 /\ s_pollin s = false.
 Proof. exact rearm_refuted. Qed.
 Print Assumptions C07_server_rearm_refuted.
 
 (* ---- ipc: arrival order = claim order, count, type, array invariant ---- *)
 Theorem C07_ipc_fifo :
-  forall kind ao al oo os beh, Forall acc_ok ao -> Forall op_ok os ->
-  let '(x, tr) := run kind (init true ao al oo) os beh in
+  forall rx kind ao al oo os beh, Forall acc_ok ao -> Forall op_ok os ->
+  let '(x, tr) := run kind (init_v rx true ao al oo) os beh in
   arrivals tr = departs tr ++ held (sv x) /\
   pending_count (sv x) = Z.of_nat (length (held (sv x))) /\
   pending_type kind (sv x) = match held (sv x) with [] => 0 | f :: _ => kind f end /\
@@ -96,8 +110,8 @@ Print Assumptions C07_ipc_fifo.
 
 (* the same order statement for any stream (a server holds at most one) *)
 Theorem C07_fifo_any_stream :
-  forall kind ipc ao al oo os beh, Forall acc_ok ao -> Forall op_ok os ->
-  let '(x, tr) := run kind (init ipc ao al oo) os beh in
+  forall rx kind ipc ao al oo os beh, Forall acc_ok ao -> Forall op_ok os ->
+  let '(x, tr) := run kind (init_v rx ipc ao al oo) os beh in
   Xinv x /\ arrivals tr = departs tr ++ held (sv x).
 Proof. exact fifo. Qed.
 Print Assumptions C07_fifo_any_stream.
